@@ -6,15 +6,16 @@ from .. import run as R
 
 
 def run_campaign(chk, b, profiles, ncases, facets, sig_prefix, nontrivial_fn, rule, want_table=False,
-                 names_modes=("full", "full", "hash", "none"), permute=0.0, nsel=3, sigfn=None):
+                 names_modes=("full", "full", "hash", "none"), permute=0.0, nsel=3, sigfn=None, cut_refs=0.0):
     sz = b.sizer()
-    shim = b.shimdir() if permute else None
+    shim = b.shimdir()
     scratch = b.scratchdir()
     specs = []
     for i in range(ncases):
         prof = profiles[i % len(profiles)]
         specs.append(dict(seed=R.SEED, idx=i, profile=prof, sizer=sz, scratch=scratch, shimdir=shim,
-                          want_table=want_table, names_modes=list(names_modes), permute=permute, nsel=nsel))
+                          want_table=want_table, names_modes=list(names_modes), permute=permute, nsel=nsel,
+                          cut_refs=cut_refs))
     results = R.pmap(C.run_case, specs, chunksize=4, chk=chk)
     stats = collections.Counter()
     for r in results:
@@ -34,10 +35,13 @@ def run_campaign(chk, b, profiles, ncases, facets, sig_prefix, nontrivial_fn, ru
             stats["descriptions_resolved_by_git"] += nt.get("described", 0)
             if nt.get("permuted"):
                 stats["runs_behind_permuting_shim"] += 1
+        stats["runs_with_an_injected_git_fault"] += r.get("faulted_runs", 0)
+        stats["generator_discards"] += r.get("discarded", 0)
+        stats["runs_with_for_each_ref_output_cut_mid_line"] += r.get("cut_ref_runs", 0)
         for s in r["samples"]:
             chk.sample(s)
         for facet, items in r["findings"].items():
-            if facet not in facets and facet not in ("fail", "hang"):
+            if facet not in facets and facet not in ("fail", "hang", "selection"):
                 continue
             for kind, key, det in items:
                 sig = None
